@@ -128,8 +128,9 @@ def gen_cfg(rnd, explainer, exact):
         "shuffle_keys": rnd.random() < 0.3,          # observations list their keys in varying order (key-based models only)
         "keyword_call": rnd.random() < 0.3,          # explain_one(x_i=..., y_i=...) instead of positional arguments
         "names_as_tuple": False,
-        "out_type": "plain" if exact else rnd.choice(["plain", "plain", "np64", "np32-loss"]),   # NumPy scalars as model outputs / loss values
+        "out_type": "plain" if exact else rnd.choice(["plain", "plain", "np64", "int", "np0d"]),   # NumPy scalars as model outputs / loss values
         "label_keys": rnd.choice(["int", "int", "str"]),                                     # keys of multi-label outputs
+        "x_type": rnd.choice(["dict", "dict", "OrderedDict", "subclass"]),                   # observations as dict subclasses
     }
     if rnd.random() < 0.04 and not exact:            # long stream: the default / size-100 storages fill up and start replacing
         cfg["steps"] = rnd.choice([130, 260])
@@ -205,7 +206,14 @@ class Scenario:
         self.clock.reset()
 
     def next_obs(self):
-        return self.stream.next()
+        x, y = self.stream.next()
+        xt = self.cfg.get("x_type", "dict")
+        if xt == "OrderedDict":
+            import collections
+            x = collections.OrderedDict(x)
+        elif xt == "subclass":
+            x = _Obs(x)
+        return x, y
 
     def call_kwargs(self):
         """Per-call variations: n_inner override, update_storage=False (never on the first call)."""
@@ -237,6 +245,10 @@ class Scenario:
             snap.update(marginal_loss=e.marginal_loss, model_loss=e.model_loss,
                         marginal_prediction=dict(e.marginal_prediction))
         return copy.deepcopy(snap)      # values may be mutable (NumPy arrays): a snapshot must not alias live state
+
+
+class _Obs(dict):
+    """A user's dict subclass (observations need not be plain dicts)."""
 
 
 def ref_alpha(cfg):
